@@ -1,4 +1,5 @@
 Require Import ExtrOcamlBasic.
 From Eupsv Require Import Base.Base Model.Manifest Model.ManifestSpec.
 Extraction "model.ml" keep_types new_dep m_write m_read empty_manifest tl_new tl_add tl_write tl_read tl_products
-  m_of_rows m_inverse remap m_apply spec_remap entry_ok norm_manifest wf_manifest sorted_entries visible as_flavor.
+  m_of_rows m_inverse remap m_apply spec_remap norm_manifest wf_manifest sorted_entries visible as_flavor
+  m_merge read_remap remap_rows files_rows remap_entries m_print wf_table m_noreinstall remap_declares.
